@@ -1,11 +1,12 @@
 #!/bin/bash
 # runs tools/seedcheck.sh for the given "<ID> <N>" pairs (default: all delivered pairs without a result yet)
 cd /verif
-for out in /tmp/wt/C*-out; do
+BASE="${1:-/tmp/wt}"
+for out in $BASE/C*-out; do
   id=$(basename "$out" | cut -c1-3)
   for n in 1 2; do
     [ -f "$out/patch$n.diff" ] || continue
     [ -f "$out/result$n.json" ] && grep -q caught_by "$out/result$n.json" && continue
-    tools/seedcheck.sh "$id" "$n"
+    tools/seedcheck.sh "$id" "$n" "$BASE"
   done
 done
